@@ -68,7 +68,9 @@ def form_a(draw):
         k = draw(st.integers(0, len(used)))
         out = draw(st.lists(st.sampled_from(used), min_size=k, max_size=k, unique=True)) if used else []
         out_s = "".join(out)
-        if any_ell and draw(st.integers(0, 9)) != 0:
+        if (any_ell and draw(st.integers(0, 9)) != 0) or (not any_ell and draw(st.integers(0, 7)) == 0):
+            # (with no ellipsis on any operand, '...' in the output stands for
+            # zero dimensions: numpy accepts that)
             pos = draw(st.integers(0, len(out)))
             out_s = "".join(out[:pos]) + "..." + "".join(out[pos:])
         eq += "->" + out_s
